@@ -102,6 +102,7 @@ theorem varsFit_of_allowed {reg : Reg} {defs : List VarDef} {env : List (String 
   | listItems hs _ ih => exact .listItems hs ih
   | listSingle hs _ ih => exact .listSingle hs ih
   | obj hs hk _ ih => exact .obj hs hk ih
+  | scalarPos hs hk hnv => exact .scalarPos hs hk hnv
 
 /-- **validated_arguments_sound.** Variables coerced by `coerce_variable_values`, usages accepted by the validator
     ⇒ the keyword arguments of every field conform. No assumption about the variable VALUES is left. -/
